@@ -49,6 +49,7 @@ package kms
 //@   modifies kmsgen(this)
 //@   ensures kmsgen(this) == old(kmsgen(this)) + 1
 //@   ensures err == nil ==> result != nil && result.KeyId != nil
+//@   ghost ensures err == nil ==> plain(arr(result.Plaintext))
 //@ iface KMS.EncryptWithContext
 //@   names ctx, input, opts
 //@   ensures err == nil ==> result != nil
@@ -68,15 +69,16 @@ package kms
 //@   ensures (err == nil) == (result != nil)
 //@   ensures [C17:wrap-fails-only-when-every-region-failed] err != nil ==> (forall j int :: 0 <= j && j < len(clients) ==> kmsgen(clients[j].KMS) == old(kmsgen(clients[j].KMS)) + 1)
 //@   ensures [C17:first-region-able-to-generate-is-used] err == nil ==> result == ret(GenerateDataKeyWithContext, 1, 0) && result.KeyId != nil
+//@   ensures [C03,C17:generated-data-key-is-key-material] err == nil ==> plain(arr(result.Plaintext))
 //@   ensures [C17:no-region-is-skipped-on-the-way] forall a int, b int :: 0 <= a && a < b && b < len(clients) && kmsgen(clients[b].KMS) != old(kmsgen(clients[b].KMS)) ==> kmsgen(clients[a].KMS) == old(kmsgen(clients[a].KMS)) + 1
 
 // the per-region goroutine: one Encrypt request to its own region's key with the data key's plaintext; one entry for its
 // own region on success, none on failure
 //@ func encryptAllRegions$1
-//@   facet C17
+//@   facet C17, C03
 //@   safety C17
 //@   opt no-frame
-//@   requires c != nil && c.KMS != nil && resp != nil && results != nil && !chclosed(results)
+//@   requires c != nil && c.KMS != nil && resp != nil && results != nil && !chclosed(results) && plain(arr(resp.Plaintext))
 //@   ensures [C17:region-encrypts-the-data-key-under-its-own-master-key] ncalls(EncryptWithContext) == 1 && *arg(EncryptWithContext, 1, input).KeyId == c.ARN && arg(EncryptWithContext, 1, input).Plaintext == resp.Plaintext && arg(EncryptWithContext, 1, this) == c.KMS
 //@   ensures [C17:one-entry-per-successful-region] retis(EncryptWithContext, 1, 1, nil) ==> chsent(results) == old(chsent(results)) + 1 && lastsent(results).Region == c.Region && lastsent(results).ARN == c.ARN && lastsent(results).EncryptedKEK == ret(EncryptWithContext, 1, 0).CiphertextBlob
 //@   ensures [C17:no-entry-for-a-failed-region] !retis(EncryptWithContext, 1, 1, nil) ==> chsent(results) == old(chsent(results))
@@ -89,7 +91,7 @@ package kms
 //@   safety C17
 //@   opt no-frame
 //@   opt allow-go
-//@   requires resp != nil && resp.KeyId != nil && (forall a int :: 0 <= a && a < len(clients) ==> clients[a].KMS != nil)
+//@   requires resp != nil && resp.KeyId != nil && plain(arr(resp.Plaintext)) && (forall a int :: 0 <= a && a < len(clients) ==> clients[a].KMS != nil)
 //@   loop 1 invariant [C17:every-region-is-served-by-its-own-client] 0 <= iter && iter <= len(clients) && results != nil && !chclosed(results) && (forall j int :: 0 <= j && j < iter && clients[j].ARN != *resp.KeyId ==> spawned_encryptAllRegions_1(clients[j]) == old(spawned_encryptAllRegions_1(clients[j])) + 1) && (forall j int :: iter <= j && j < len(clients) ==> spawned_encryptAllRegions_1(clients[j]) == old(spawned_encryptAllRegions_1(clients[j]))) && (forall k int :: 0 <= k && k < chsent(results) ==> chlog(results, k).EncryptedKEK == resp.CiphertextBlob && chlog(results, k).ARN == *resp.KeyId)
 //@   ensures [C17:returns-a-channel-nobody-has-read-from] result != nil && chrecvd(result) == 0
 //@   ensures [C17:one-goroutine-per-other-region-on-that-region-s-client] forall j int :: 0 <= j && j < len(clients) && clients[j].ARN != *resp.KeyId ==> spawned_encryptAllRegions_1(clients[j]) == old(spawned_encryptAllRegions_1(clients[j])) + 1
@@ -100,7 +102,7 @@ package kms
 //@   names ctx, clients
 //@   modifies kmsgen
 //@   ensures (err == nil) == (result != nil)
-//@   ensures err == nil ==> result.KeyId != nil
+//@   ensures err == nil ==> result.KeyId != nil && plain(arr(result.Plaintext))
 //@ funcvar generateDataKeyFunc dataKeyGen
 //@ funcspec regionEncryptor
 //@   names ctx, resp, clients
